@@ -118,7 +118,9 @@ impl<'a> PrettyPrinter<'a> {
     }
 
     fn convert_list_item_like(&'a self, ctx: Context, item: &'a SyntaxNode) -> ArenaDoc<'a> {
-        // Whether nothing has been emitted since the marker (an empty term: `/ : desc`).
+        // Whether the colon of a term item needs a space in front of it: nothing has been emitted
+        // since the marker (an empty term, `/ : desc`: `/:` would not start a term item), or the
+        // term ends with a linebreak (`/ a \ : b`: `\:` would be an escape).
         let mut after_marker = false;
         self.convert_flow_like(ctx, item, |ctx, child| match child.kind() {
             SyntaxKind::ListMarker | SyntaxKind::EnumMarker | SyntaxKind::TermMarker => {
@@ -144,7 +146,7 @@ impl<'a> PrettyPrinter<'a> {
             ),
             SyntaxKind::Markup if child.children().next().is_some() => {
                 // empty markup is ignored here
-                after_marker = false;
+                after_marker = super::math::ends_with_linebreak(child);
                 FlowItem::spaced(self.convert_markup_impl(
                     ctx,
                     child.cast().expect("markup"),
